@@ -50,6 +50,10 @@ def run(ctx):
     from . import c02
     ctx.alias = {'R3': 'R12', 'R5': 'R12'}
     c02.r3_r5_counts(ctx)
+    # "nothing moved to another spine": the token of a cell is what the importer of ITS spine made of ITS text (C18.R7 as R13)
+    from . import c18 as _c18
+    ctx.alias = {'R7': 'R13'}
+    _c18.r7_document_dispatch(ctx)
     ctx.alias = {}
     c01.r3_export_order(ctx, g, None, 'R7')
     # cells are taken literally by the line reader, and every token is built by a listener created for that token alone
